@@ -10,7 +10,8 @@ WORK = os.path.join(VERIF, ".work")
 LEAN = os.path.join(VERIF, "lean")
 BIN = os.path.join(WORK, "bin")
 AVOH = os.path.join(BIN, "avoh")
-DRIVER = os.path.join(LEAN, ".lake", "build", "bin", "avodriver")
+def driver_path(name):
+    return os.path.join(LEAN, ".lake", "build", "bin", name)
 REPLAYS = os.path.join(VERIF, "replays")
 ALLOWED_AXIOMS = {"propext", "Classical.choice", "Quot.sound"}
 FORBIDDEN = re.compile(r"\b(sorry|admit|native_decide|bv_decide|implemented_by|unsafe)\b|^axiom\s|maxHeartbeats\s+0\b")
@@ -126,6 +127,13 @@ class Ctx:
             self.log("lake build failed:\n" + out[-6000:])
         return rc == 0, out
 
+    def build_driver(self, name=None):
+        name = name or ("drv_" + self.prop.lower())
+        ok, out = self.lake([name])
+        if not ok:
+            self.obligation_failures.append((f"{name} build", out[-3000:]))
+        return ok
+
     def lake_each(self, targets, required=()):
         """Build every target; a failing non-required target is a broken proof
         obligation (recorded), a failing required one aborts."""
@@ -208,15 +216,16 @@ class Ctx:
         return rc == 0
 
     # --------------------------------------------------------- differential
-    def run_driver(self, ops_path, model_path, timeout=3600):
+    def run_driver(self, ops_path, model_path, timeout=3600, driver=None):
+        driver = driver or ("drv_" + self.prop.lower())
         with open(ops_path) as fin, open(model_path, "w") as fout:
-            p = subprocess.run([DRIVER], stdin=fin, stdout=fout, stderr=subprocess.PIPE, timeout=timeout)
+            p = subprocess.run([driver_path(driver)], stdin=fin, stdout=fout, stderr=subprocess.PIPE, timeout=timeout)
         if p.returncode != 0:
-            self.obligation_failures.append(("avodriver", (p.stderr or b"").decode()[-2000:]))
+            self.obligation_failures.append((driver, (p.stderr or b"").decode()[-2000:]))
             return False
         return True
 
-    def differential(self, sub, n, extra=(), tag="", timeout=3600, nontrivial=None, max_report=20):
+    def differential(self, sub, n, extra=(), tag="", timeout=3600, nontrivial=None, max_report=20, driver=None):
         """Run `avoh sub` to produce ops/impl, the driver to produce model, and
         compare line by line.  Lines whose request starts with `accept-` are
         acceptor requests (expected response `ok`): a mismatch there is a
@@ -232,7 +241,7 @@ class Ctx:
             self.log(f"avoh {sub} failed rc={rc}: {out[-3000:]}")
             self.obligation_failures.append((f"avoh {sub}", out[-3000:]))
             return None
-        if not self.run_driver(ops, model, timeout=timeout):
+        if not self.run_driver(ops, model, timeout=timeout, driver=driver):
             return None
         nlines = 0
         mism = 0
